@@ -68,6 +68,7 @@ def random_history(rng, max_classes=6, p_inv=0.5, keys=KEYS, late=False):
     two function ids share one undecorated function object (the same implementation decorated / bound twice)"""
     b = Builder()
     same_bare = {}
+    fn_names = {}
     plain_fns = []
     n = rng.randint(2, max_classes)
     for i in range(n):
@@ -92,6 +93,10 @@ def random_history(rng, max_classes=6, p_inv=0.5, keys=KEYS, late=False):
                 ns.append(b.member(key, **acc))
             else:
                 f = b.new_fn(npre, npost, nsnap, sname)
+                if rng.random() < 0.12:
+                    # the function object is called differently than the attribute it is bound to (an alias / a shared
+                    # helper / a decorator without functools.wraps): only the attribute name may matter
+                    fn_names[str(f)] = rng.choice(["__init__", "__new__", "__setattr__", "helper_impl"]) if key != "__init__" else "helper_impl"
                 if late and rng.random() < 0.3:
                     b.ops.append(op("call", f=f))       # the decorated function is used on its own before the class exists
                 if late and key in ("m", "n") and plain_fns and rng.random() < 0.3:
@@ -125,7 +130,10 @@ def random_history(rng, max_classes=6, p_inv=0.5, keys=KEYS, late=False):
                 else:
                     sid = b.next_s
                     b.next_s += 1
-                    b.snap_names.append([sid, "late%d" % sid])
+                    # (sometimes a name that is already taken in this history - if it is taken by the member's own or
+                    # inherited snapshots, the late decoration must be refused like an early one)
+                    taken = [nm for _s, nm in b.snap_names]
+                    b.snap_names.append([sid, rng.choice(taken) if (taken and rng.random() < 0.5) else "late%d" % sid])
                     b.ops.append(op("post", f=f, c=b.next_c))
                     b.next_c += 1
                     b.ops.append(op("snap", f=f, c=sid))
@@ -136,6 +144,8 @@ def random_history(rng, max_classes=6, p_inv=0.5, keys=KEYS, late=False):
     c = b.case()
     if late:
         c["sameBare"] = same_bare
+    if fn_names:
+        c["fnNames"] = fn_names
     c["module"] = rng.choice(["verif_hist", "verif_hist", "icontract_models", "icontractual.shapes", "my_icontract", "icontract_ext"])
     return c
 
@@ -169,6 +179,26 @@ def late_shapes():
                     b.ops.append(op("snap", f=fb, c=sid))
                 b.next_c += 1
                 out.append(b.case())
+    # late snapshots whose name is already taken - by the member's own snapshot or by one it inherited when its class
+    # was created - must be refused exactly like early ones; a fresh name is accepted
+    for own_snap in (0, 1):
+        for late_name in ("inherited", "own", "fresh", "sibling"):
+            if late_name == "own" and not own_snap:
+                continue
+            b = Builder()
+            fa = b.new_fn(0, 1, 1, "sA")
+            a = b.add_class([], [b.member("m", fa)])
+            fb = b.new_fn(0, 1, own_snap, "sB")
+            kb = b.add_class([a], [b.member("m", fb)])
+            b.add_class([a], [b.member("m", b.new_fn(0, 1, 1, "sC"))])
+            sid = b.next_s
+            b.next_s += 1
+            b.snap_names.append([sid, {"inherited": "sA", "own": "sB", "fresh": "sNew", "sibling": "sC"}[late_name]])
+            b.ops.append(op("post", f=fb, c=b.next_c))
+            b.next_c += 1
+            b.ops.append(op("snap", f=fb, c=sid))
+            b.add_class([kb], [b.member("m", b.new_fn(0, 1))])
+            out.append(b.case())
     return out
 
 
